@@ -619,7 +619,9 @@ def check_searches(repo, rep):
   # iterated sequence = get_result()[KEY] in heap order
   it, _ = rd.canon(loop, loop.ast.iter)
   import re
-  m = re.fullmatch(r'self\._search_results\.get_result\(\)\[(.+)\]', it)
+  m = re.fullmatch(r'self\._search_results\.get_result\(\)\[([^\]]+)\]', it) or \
+      re.fullmatch(r'self\._search_results\.get_result\(\)\[([^\]]+)\] if self\._search_results\.get_result\(\) else \[\]', it) or \
+      re.fullmatch(r'self\._search_results\.get_result\(\)\.get\(([^,\]]+), (\[\]|\(\))\)', it)
   if not m:
     bad = None
     for w in ('reversed(', 'sorted(', '[::-1]', 'set('):
